@@ -181,6 +181,19 @@ impl Space for CalSweep {
         out.law("1 <= day <= days_in_month", cd >= 1 && cd as u16 <= dim, fa);
         out.law("1 <= month <= months_in_year", cm >= 1 && cm as u16 <= miy, fa);
         out.law("1 <= day_of_year <= days_in_year", doy >= 1 && doy <= diy, fa);
+        // 8a. the arithmetic year and (era, eraYear) name the same year
+        if let (Some(e), Some(ey)) = (&era, era_year) {
+            let expect: Option<i64> = match (cal_id, e.as_str()) {
+                ("japanese", _) | ("japanext", _) => Some(y),
+                (_, "gregory-inverse") | (_, "roc-inverse") | (_, "coptic-inverse") | (_, "ethiopic-inverse") | (_, "bce") => Some(1 - ey as i64),
+                ("ethiopic", "ethioaa") => Some(ey as i64 - 5500),
+                _ => Some(ey as i64),
+            };
+            if let Some(x) = expect {
+                let e2 = e.clone();
+                out.law("year agrees with (era, eraYear)", cy as i64 == x, || attrs(vec![("fields", format!("{f:?}")), ("era_name", e2.clone())]));
+            }
+        }
         // 8. month <-> month code
         let code_num: u8 = code[1..3].parse().unwrap_or(0);
         let code_leap = code.ends_with('L');
@@ -238,6 +251,58 @@ impl Space for CalSweep {
                     let got = call(|| PlainDate::from_partial(p, ov));
                     out.lockstep(if k == 0 { "rebuild from (era, eraYear, monthCode, day)" } else { "rebuild from (era alias, eraYear, monthCode, day)" }, &Ok((y, m, d)), &got, same, || attrs(vec![("fields", format!("{f:?}")), ("overflow", ovn.into()), ("era_name", en.clone())]));
                 }
+            }
+        }
+        // 6. the same routes through with(): the receiver supplies what the record leaves out
+        for (ovn, ov) in [("constrain", Some(ArithmeticOverflow::Constrain)), ("reject", Some(ArithmeticOverflow::Reject))] {
+            let same = |a: &(i64, u8, u8), b: &PlainDate| (b.iso_year() as i64, b.iso_month(), b.iso_day()) == *a;
+            let wa = |receiver: String| attrs(vec![("fields", format!("{f:?}")), ("overflow", ovn.into()), ("receiver", receiver), ("era_name", era.clone().unwrap_or_else(|| "none".into()))]);
+            // both month and monthCode, as the getters report them
+            let mut p = PartialDate::default();
+            p.calendar = cal.clone();
+            p.day = Some(cd);
+            p.year = Some(cy);
+            p.month = Some(cm);
+            p.month_code = Some(mc);
+            if let (Some(e), Some(ey)) = (&era, era_year) {
+                p.era = TinyAsciiStr::<19>::try_from_utf8(e.as_bytes()).ok();
+                p.era_year = Some(ey);
+            }
+            let got = call(|| PlainDate::from_partial(p, ov));
+            out.lockstep("rebuild from every field the getters report", &Ok((y, m, d)), &got, same, || wa("none".into()));
+            // ... and a year that disagrees with (era, eraYear) is refused
+            if let (Some(e), Some(ey)) = (&era, era_year) {
+                for wrong in [cy - 1, cy + 1] {
+                    let mut p = PartialDate::default();
+                    p.calendar = cal.clone();
+                    p.day = Some(cd);
+                    p.year = Some(wrong);
+                    p.month_code = Some(mc);
+                    p.era = TinyAsciiStr::<19>::try_from_utf8(e.as_bytes()).ok();
+                    p.era_year = Some(ey);
+                    let got = call(|| PlainDate::from_partial(p, ov));
+                    out.lockstep("a year next to a disagreeing (era, eraYear) is refused", &Err::<(i64, u8, u8), _>(ErrorKind::Range), &got, same, || wa("none".into()));
+                }
+            }
+            // with() of its own fields is the identity
+            let got = call(|| date.with(PartialDate::new().with_day(Some(cd)), ov));
+            out.lockstep("with({day: own}) is the identity", &Ok((y, m, d)), &got, same, || wa("self".into()));
+            let got = call(|| date.with(PartialDate::new().with_month_code(Some(mc)), ov));
+            out.lockstep("with({monthCode: own}) is the identity", &Ok((y, m, d)), &got, same, || wa("self".into()));
+            // from other days of the same calendar year (the 1st of this month, and the days 40 and 200 days away
+            // when they are in the same calendar year): with({monthCode, day}) leads back here
+            for delta in [-(cd as i64 - 1), -200, -40, 40, 200] {
+                if delta == 0 || day + delta < MIN_DAY || day + delta > MAX_DAY {
+                    continue;
+                }
+                let (oy, om, od) = civil_from_days(day + delta);
+                let Oc::Ok(other) = call(|| PlainDate::try_new(oy as i32, om, od, cal.clone())) else { continue };
+                let Oc::Ok((other_year, other_era)) = call_inf(|| (other.year(), other.era().map(|e| e.to_string()))) else { continue };
+                if other_year != cy || other_era != era {
+                    continue;
+                }
+                let got = call(|| other.with(PartialDate::new().with_month_code(Some(mc)).with_day(Some(cd)), ov));
+                out.lockstep("other.with({monthCode, day}) within the calendar year", &Ok((y, m, d)), &got, same, || wa(format!("{delta:+}d")));
             }
         }
         // 7. successor law: the next ISO day is the next calendar day
